@@ -110,7 +110,6 @@ impl CharacterMutator {
 #[derive(Clone, Copy, PartialEq, Eq, Structural)]
 //@item src/mutators/typeconfusion.rs enum StackType
 //@item src/mutators/typeconfusion.rs struct TypeConfusionMutator
-//@item src/mutators/mod.rs struct EmissionSnapshot
 
 pub open spec fn class_num(t: StackType) -> int {
     match t {
